@@ -398,3 +398,40 @@ Qed.
 
 Theorem decode_invalid_header h rest : header_ok h -> validate h = false -> decode (enc_header h ++ rest) = None.
 Proof. intros Hh Hv. unfold decode. rewrite get_header_enc by assumption. cbn [bind]. rewrite Hv. reflexivity. Qed.
+
+(* ------------------------------------------------------------------ *)
+(* the byte dequantisers are injective: comparing the byte a returned value dequantises from (the     *)
+(* codes of the large synthetic cases of Check/C15.v) is comparing the dequantised values              *)
+(* ------------------------------------------------------------------ *)
+From Coq Require Import Lqa.
+Lemma bq_inj a b : (bq a == bq b)%Q -> a = b.
+Proof. unfold bq. intros H. apply -> inject_Z_injective in H. apply N2Z.inj. exact H. Qed.
+
+Theorem scale1_inj a b : (scale1 a == scale1 b)%Q -> a = b.
+Proof.
+  unfold scale1. intros H. apply bq_inj. set (x := bq a) in *. set (y := bq b) in *.
+  assert (Ex : (x / 16 == x * (1 # 16))%Q) by field. assert (Ey : (y / 16 == y * (1 # 16))%Q) by field.
+  rewrite Ex, Ey in H. lra.
+Qed.
+Theorem sh1_inj a b : (sh1 a == sh1 b)%Q -> a = b.
+Proof.
+  unfold sh1. intros H. apply bq_inj. set (x := bq a) in *. set (y := bq b) in *.
+  assert (Ex : ((x - 128) / 128 == (x - 128) * (1 # 128))%Q) by field.
+  assert (Ey : ((y - 128) / 128 == (y - 128) * (1 # 128))%Q) by field.
+  rewrite Ex, Ey in H. lra.
+Qed.
+Theorem rot1_inj a b : (rot1 a == rot1 b)%Q -> a = b.
+Proof. unfold rot1. intros H. apply bq_inj. set (x := bq a) in *. set (y := bq b) in *. lra. Qed.
+Theorem col1_inj a b : (col1 a == col1 b)%Q -> a = b.
+Proof.
+  unfold col1. intros H. apply bq_inj. set (x := bq a) in *. set (y := bq b) in *.
+  assert (Ex : ((x / 255 - (1 # 2)) / (3 # 20) == x * (4 # 153) - (10 # 3))%Q) by field.
+  assert (Ey : ((y / 255 - (1 # 2)) / (3 # 20) == y * (4 # 153) - (10 # 3))%Q) by field.
+  rewrite Ex, Ey in H. lra.
+Qed.
+Theorem alpha_inj a b : (bq a / 255 == bq b / 255)%Q -> a = b.
+Proof.
+  intros H. apply bq_inj. set (x := bq a) in *. set (y := bq b) in *.
+  assert (Ex : (x / 255 == x * (1 # 255))%Q) by field. assert (Ey : (y / 255 == y * (1 # 255))%Q) by field.
+  rewrite Ex, Ey in H. lra.
+Qed.
